@@ -117,6 +117,9 @@ impl Parser {
                 HexMacroState::FirstHex => {
                     if ch == ';' && read_repeat {
                         read_repeat = false;
+                        if marco_rec.len().saturating_add(repeat_rec.len().saturating_mul(repeat_number as usize)) > super::MAX_MACRO_SPACE {
+                            return Err(ParserError::Error("Macro sequence exceeds the macro space".to_string()).into());
+                        }
                         (0..repeat_number).for_each(|_| marco_rec.push_str(&repeat_rec));
                         continue;
                     }
@@ -159,6 +162,9 @@ impl Parser {
             }
         }
         if read_repeat {
+            if marco_rec.len().saturating_add(repeat_rec.len().saturating_mul(repeat_number as usize)) > super::MAX_MACRO_SPACE {
+                return Err(ParserError::Error("Macro sequence exceeds the macro space".to_string()).into());
+            }
             (0..repeat_number).for_each(|_| marco_rec.push_str(&repeat_rec));
         }
 
